@@ -15,13 +15,6 @@ def correspond(c, seed, n, tier, extra=None, name="c16"):
     """harness on the implementation, then model and declarative oracle on the same lines.
     Returns (ok, mism, smism, stats)."""
     exe_h, hlog = V.build_harness("c16")
-    for _ in range(4):
-        # harness/go.mod is shared by all checks and rewritten by `go build -mod=mod`; a concurrent build of
-        # another check makes go give up with this message: try again
-        if exe_h is None and ("existing contents have changed" in hlog or "go.mod" in hlog and "locked" in hlog):
-            import time
-            time.sleep(2)
-            exe_h, hlog = V.build_harness("c16")
     if exe_h is None:
         c.broken_correspondence("harness-build", None, V.tail(hlog, 40))
         return False, [], [], {}
@@ -64,7 +57,8 @@ def run(tier, seed, extra=None):
     rule = ("random multi-document JSON streams (scalars, nested arrays/objects to depth 3, duplicate-free keys in "
             "arbitrary order, escapes, random whitespace) fed to --stream whole and truncated at EVERY byte; the same "
             "streams split over 0..3 files and stdin under -n/-s/-R/-Rs/--stream/-f and [.,input]; malformed and missing "
-            "files; --arg/--argjson/--slurpfile/--rawfile with duplicate names, --args/--jsonargs switching; "
+            "files; raw lines and JSON documents of 4095..16384 bytes (thorough: ..70000) incl. CRLF and no final newline; "
+            "--slurpfile/--rawfile/--argjson under every input mode; --arg/--argjson/--slurpfile/--rawfile with duplicate names, --args/--jsonargs switching; "
             "distinct = distinct case lines longer than 40 bytes")
     return c.finish(rule, extra_cov=dict(harness_stats=st))
 
